@@ -1,11 +1,14 @@
 """C20 - exited threads' queues are drained, then reclaimed; shrinking loses nothing.
 Contract: spec/QuillContract.tla (ok20 + delivery ok03 clauses), TLC trace validation of real executions (harness/h_sys);
-shrink at queue level: spec/UnboundedRA.tla / StreamContract (C02 machinery)."""
-import sysfam, qsys
+shrink at queue level: spec/UnboundedRA.tla / StreamContract (C02 machinery); the exit/reclaim protocol under release/acquire:
+spec/ExitRA.tla with the memory orders extracted from the code, replayed on the real ThreadContext and queue (tools/exitmodel.py)."""
+import json
+import sysfam, qsys, exitmodel
 
 
 def run(ck):
     quick = ck.tier == "quick"
+    exitmodel.run_for(ck)
     # shrink at queue level ("shrinking loses nothing"): the C02 machinery on the configurations that contain shrink requests -
     # consumer/producer interleavings inside prepare_read()/shrink() are not reachable from the system-level yield points
     import C02
@@ -24,4 +27,7 @@ def run(ck):
 
 
 def replay(ck, path):
-    qsys.replay(path)
+    if json.loads(open(path).read())["replay"].get("harness") == "h_exit":
+        exitmodel.replay(path)
+    else:
+        qsys.replay(path)
